@@ -12,6 +12,7 @@ steps (executed in order by the main thread):
   ['close'] ['join'] ['terminate'] ['terminate_job', tag] ['sigterm_worker', tag]
   ['kill_idle', sig] ['wait_short', size, timeout] ['snapshot', name] ['del_pool'] ['apply_sync', tag, script]
   ['map_sync', tag, script, n, chunksize, kind]
+  ['imap_lazy', tag, script, n1, stall, n2, kind]
   ['maintain'] ['pump', seconds] ['drive', seconds]   (threads=False pools)
 """
 import faulthandler
@@ -189,6 +190,26 @@ def main():
                             return orig(i, time_accepted, pid, *a)
                         return _ack
                     h._ack = _wrap()
+                handles[tag] = (kind, h)
+                obs['jobs'][tag]['submitted'] = h is not None
+                obs['jobs'][tag]['t_submit'] = time.monotonic()
+            elif op == 'imap_lazy':
+                # an imap over a lazily produced input: the generator hands out
+                # n1 items, stalls for `stall` seconds (the task feeder thread
+                # sits in it meanwhile), then hands out n2 more
+                _, tag, script, n1, stall, n2, kind = step
+                mk_callbacks(tag)
+
+                def lazy(n1=n1, stall=stall, n2=n2):
+                    for i in range(n1):
+                        yield i
+                    event('lazy_stall', tag, '%.6f' % time.monotonic())
+                    time.sleep(stall)
+                    for i in range(n1, n1 + n2):
+                        yield i
+                fn = functools.partial(rtargets.rtask_map, script, tmpdir, tag)
+                h = (pool.imap if kind == 'imap' else pool.imap_unordered)(
+                    fn, lazy(), 1)
                 handles[tag] = (kind, h)
                 obs['jobs'][tag]['submitted'] = h is not None
                 obs['jobs'][tag]['t_submit'] = time.monotonic()
